@@ -33,16 +33,37 @@ func c20Values(thorough bool) []doc {
 	return out
 }
 
+// c20BigValues is the thorough alphabet: every value of depth <= 2 with arrays up to length 3 and objects over three
+// keys, plus every value of depth <= 3 over a reduced atom list.
+func c20BigValues() []doc {
+	texts := jsonDocs(c20Atoms, []string{"a", "b", "c"}, 3, 2)
+	texts = append(texts, jsonDocs([]string{"null", "1", "1.0", `"1"`, "[]"}, []string{"a"}, 2, 3)...)
+	for _, d := range c20Values(true) {
+		texts = append(texts, d.Text)
+	}
+	seen := map[string]bool{}
+	var out []doc
+	for _, t := range texts {
+		if !seen[t] {
+			seen[t] = true
+			out = append(out, mkDoc(t))
+		}
+	}
+	return out
+}
+
 func init() {
 	core.Register(&core.Check{
 		ID:    "C20",
 		Title: "equality is a deep, type-strict equivalence and truthiness is uniform",
 		Rule: "every ordered pair of the value alphabet (all JSON values of depth <= 2 over the atom list, numerically equal numbers in different spellings included) is compared through ==, !=, contains and the literal spelling; the implementation's " +
 			"own answer matrix is checked for reflexivity, symmetry and transitivity (all triples) and against the reference's deep equality; every value and pair goes through !, &&, ||, [?@] and [?x].y against the five-falsy rule; " +
+			"the thorough tier repeats the matrix over arrays up to length 3, objects over three keys and depth-3 values (x == y implies row(x) = row(y), which with reflexivity is symmetry and transitivity); " +
 			"non-trivial = a pair judged equal although spelled differently, or a truthy operand returned; distinct_nontrivial counts distinct non-trivial outcomes",
 		Phases: []core.Phase{
 			{Name: "algebra", Build: "instr", Procs: 1, Fn: c20Algebra},
 			{Name: "operators", Build: "instr", Fn: c20Operators},
+			{Name: "big-matrix", Build: "instr", Fn: c20BigMatrix},
 			{Name: "float-carriers", Build: "instr", Procs: 1, Fn: c20Floats},
 		},
 		Judge: c20Judge,
@@ -164,8 +185,102 @@ func sameRaw(a core.Obs, raw any) bool {
 	return a.Kind == "ok" && core.Skeleton(a.Raw) == core.Skeleton(raw) && core.ToJSONText(a.Raw) == core.ToJSONText(raw)
 }
 
+// c20BigMatrix (thorough only): the equivalence laws over the big alphabet, sharded by row. With reflexivity,
+// "x == y implies the whole row of x equals the whole row of y" is exactly symmetry plus transitivity.
+func c20BigMatrix(r *core.Run) {
+	if !r.Thorough() {
+		return
+	}
+	vals := c20BigValues()
+	n := len(vals)
+	r.Bound("big_values", n)
+	row := func(i int, own bool) []bool {
+		out := make([]bool, n)
+		for j := range vals {
+			d := c20Pair(vals[i], vals[j])
+			if own {
+				r.Begin(map[string]any{"x": vals[i].Text, "y": vals[j].Text, "expr": "x == y", "doc": fmt.Sprintf(`{"x":%s,"y":%s}`, vals[i].Text, vals[j].Text)})
+			}
+			o := c20Eq.run(d)
+			r.Add("evaluations", 1)
+			r.Add("transitions", 1)
+			b, ok := boolOf(o)
+			pt := func(law string) map[string]any {
+				return map[string]any{"law": law, "x": vals[i].Text, "y": vals[j].Text, "expr": "x == y", "doc": fmt.Sprintf(`{"x":%s,"y":%s}`, vals[i].Text, vals[j].Text)}
+			}
+			if !ok {
+				r.Violate(&core.Violation{Sig: "C20/equality-not-boolean", Desc: "x == y", Point: pt("equality-not-boolean"), Expected: "a boolean", Actual: o.Short()})
+				continue
+			}
+			out[j] = b
+			if !own {
+				continue
+			}
+			r.Add("states", 1)
+			if want, det := ref.DeepEqual(vals[i].Norm, vals[j].Norm); det && want != b {
+				sig := "equality-differs-from-deep-equality"
+				if ref.TypeOf(vals[i].Norm) != ref.TypeOf(vals[j].Norm) {
+					sig = "equality-across-json-types"
+				}
+				r.Violate(&core.Violation{Sig: "C20/" + sig + "/" + ref.TypeOf(vals[i].Norm) + "-" + ref.TypeOf(vals[j].Norm), Desc: "x == y", Point: pt(sig), Expected: fmt.Sprint(want), Actual: o.Short()})
+			}
+			if b && vals[i].Text != vals[j].Text {
+				r.Add("nontrivial_evaluations", 1)
+				r.Outcome(vals[i].Text + "==" + vals[j].Text)
+			}
+			ne := c20Ne.run(d)
+			c1 := c20Con.run(d)
+			r.Add("evaluations", 2)
+			if nb, ok := boolOf(ne); !ok || nb == b {
+				r.Violate(&core.Violation{Sig: "C20/not-equal-is-not-the-negation", Desc: "x != y", Point: pt("not-equal-is-not-the-negation"), Expected: fmt.Sprint(!b), Actual: ne.Short()})
+			}
+			if cb, ok := boolOf(c1); !ok || cb != b {
+				r.Violate(&core.Violation{Sig: "C20/contains-uses-another-relation", Desc: "contains([x], y)", Point: pt("contains-uses-another-relation"), Expected: fmt.Sprint(b), Actual: c1.Short()})
+			}
+		}
+		return out
+	}
+	for i := range vals {
+		if !r.Mine(i) {
+			continue
+		}
+		if r.Expired() {
+			break
+		}
+		ri := row(i, true)
+		if !ri[i] {
+			r.Violate(&core.Violation{Sig: "C20/not-reflexive", Desc: "x == x", Point: map[string]any{"law": "not-reflexive", "x": vals[i].Text, "y": vals[i].Text}, Expected: "true", Actual: "false"})
+		}
+		for j := range vals {
+			if j == i || !ri[j] {
+				continue
+			}
+			rj := row(j, false)
+			r.Add("rows_compared", 1)
+			if !rj[i] {
+				r.Violate(&core.Violation{Sig: "C20/not-symmetric", Desc: "x == y vs y == x", Point: map[string]any{"law": "not-symmetric", "x": vals[i].Text, "y": vals[j].Text}, Expected: "true", Actual: "false"})
+				continue
+			}
+			for k := range vals {
+				if ri[k] == rj[k] {
+					continue
+				}
+				x, y := i, j
+				if ri[k] {
+					x, y = j, i
+				}
+				r.Violate(&core.Violation{Sig: "C20/not-transitive", Desc: "x == y, y == z but x != z", Point: map[string]any{"law": "not-transitive", "x": vals[x].Text, "y": vals[y].Text, "z": vals[k].Text}, Expected: "true", Actual: "false"})
+				break
+			}
+		}
+	}
+}
+
 func c20Operators(r *core.Run) {
 	vals := c20Values(r.Thorough())
+	if r.Thorough() {
+		vals = c20BigValues()
+	}
 	r.Bound("values", len(vals))
 	for i, x := range vals {
 		if !r.Mine(i) {
